@@ -214,7 +214,7 @@ PROPS["C20"] = dict(
     module="Cfdp.Props.C20",
     namespace="Cfdp.Loop",
     theorems=["C20_recv", "C20_recv_mono", "C20_recv_reports", "progress_sendFileSegment", "C20_send_le"],
-    engines=["recv", "send"],
+    engines=["recv", "send", "seg"],
     design="§6 C20",
     technique="Lean 4 invariant proofs over all event histories of both models (using the C09 refinement) + differential correspondence",
     level_text=("Kernel-checked: after every history of loop events the receiver's figure equals the sum of its well-formed segment list, i.e. by C09 the "
@@ -224,7 +224,9 @@ PROPS["C20"] = dict(
                 "Tie to the code: recv/send engines compare the figure after every step; oracles recv_progress / send_progress compare it with the bytes "
                 "delivered / PDUs emitted as tracked independently by the harness."),
     level_note=RECV_SEND_NOTE,
-    rule="recv + send engines as in C04/C07 (prompts, faults, suspend/resume at random points; duplicates and retransmissions). Non-trivial = a PDU was emitted or an indication raised.",
+    rule=("recv + send engines as in C04/C07 (prompts, faults, suspend/resume at random points; duplicates, retransmissions and re-segmented data that overlaps, "
+          "bridges and swallows held segments); seg engine as in C09 (the receiver's figure is the sum of Segments::merge's return values, so the proof rests on the "
+          "Segments model). Non-trivial = a PDU was emitted or an indication raised / the operation changed the segment list."),
     assumptions=[],
     unproved=["sender: 'figure = highest offset transmitted so far' as a whole-history equation (proved per file-data transmission; the history version is checked by the send engine oracle send_progress)"],
 )
